@@ -220,7 +220,9 @@ func (c *Ctx) callInner(in ssa.Instruction, cc *ssa.CallCommon, st *State, defer
 		}
 		cond := c.evalBool(r.E, env, "callee requires")
 		preAll = append(preAll, cond)
-		c.addObl("G", fmt.Sprintf("%s.%s.pre[%s]", c.fnName(), site, label), cond, r.Src)
+		o := c.addObl("G", fmt.Sprintf("%s.%s.pre[%s]", c.fnName(), site, label), cond, r.Src)
+		// a callee precondition belongs to the properties of the callee's contract as well
+		o.Props = append(append([]string{}, c.props...), con.Props...)
 	}
 	pre := st.clone()
 	// effects
